@@ -57,9 +57,14 @@ def scenario(seed, n_clients, n_hosts, M, max_count):
                 conn = yield from pool.acquire(host, 80)
                 if id(conn) in held: problems.append('client %d got a connection that client %d still holds' % (i, held[id(conn)]))
                 held[id(conn)] = i; per_host[host] = per_host.get(host, 0) + 1; check('after acquire by client %d' % i)
+                # a connection that was just checked out is not connected yet (closed() is True), and one that the remote closed stays with its holder until it is
+                # checked in: in both states it is HELD, whatever a sweep of the pool thinks of it
+                for _ in range(rnd.randrange(3)): yield from asyncio.sleep(0)
                 if conn._active_connection is None: conn._active_connection = Conn()          # "connected"
                 for _ in range(rnd.randrange(4)): yield from asyncio.sleep(0)
-                if rnd.random() < 0.3: conn.close()                                             # remote close / error
+                if rnd.random() < 0.3:
+                    conn.close()                                                                # remote close / error
+                    for _ in range(rnd.randrange(3)): yield from asyncio.sleep(0)
             finally:
                 if conn is not None:
                     held.pop(id(conn), None); per_host[host] -= 1
